@@ -18,9 +18,14 @@ const COMMANDS: &[&str] = &["status", "log", "commit", "add", "diff", "rev-parse
 const CMD_ARGS: &[&str] = &["-s", "--oneline", "-1", "-m", "msg", "--", "a.txt", "-C", "HEAD", "--git-dir", "-c", "x=y", "--help", "-h", "--version", "status", "commit", "--", "-p", "-v", "--all"];
 const UNKNOWN: &[&str] = &["--nonsense", "-x", "-Z", "--git-dirx", "--version=1", "-cfoo", "-Cdir"];
 
-fn gen_vec(rng: &mut Rng) -> Vec<String> {
+/// Returns (vector, well_formed, has_meta): well_formed = every value-taking global option has its value, no unknown
+/// top-level option, no top-level `--`, at most one meta option and it comes last among the globals.
+fn gen_vec(rng: &mut Rng) -> (Vec<String>, bool, bool) {
     let mut v: Vec<String> = Vec::new();
+    let mut wf = true;
+    let mut meta = 0;
     for _ in 0..rng.below(4) {
+        if meta > 0 { wf = false; }
         match rng.below(10) {
             0..=3 => v.push(rng.pick(GLOBALS_NOVAL).to_string()),
             4..=6 => {
@@ -28,22 +33,25 @@ fn gen_vec(rng: &mut Rng) -> Vec<String> {
                 match rng.below(4) {
                     0 if k.starts_with("--") => v.push(format!("{}={}", k, val)),
                     1 if !k.starts_with("--") => v.push(format!("{}{}", k, val)),
-                    2 => v.push(k.to_string()), // value missing / next token becomes the value
+                    2 => { v.push(k.to_string()); wf = false; } // value missing / next token becomes the value
                     _ => { v.push(k.to_string()); v.push(val.to_string()); }
                 }
+                if k == "--exec-path" || k == "--list-cmds" { wf = false; }
             }
-            7 => v.push(rng.pick(META).to_string()),
-            8 => v.push(rng.pick(UNKNOWN).to_string()),
-            _ => v.push("--".to_string()),
+            7 => { let m = rng.pick(META).to_string(); if m == "--exec-path" { wf = false; } v.push(m); meta += 1; }
+            8 => { v.push(rng.pick(UNKNOWN).to_string()); wf = false; }
+            _ => { v.push("--".to_string()); wf = false; }
         }
     }
     if rng.chance(5, 6) {
-        v.push(rng.pick(COMMANDS).to_string());
+        let c = rng.pick(COMMANDS).to_string();
+        if c.starts_with('-') { wf = false; }
+        v.push(c);
         for _ in 0..rng.below(4) {
             v.push(rng.pick(CMD_ARGS).to_string());
         }
     }
-    v
+    (v, wf, meta > 0)
 }
 
 pub fn run(seed: u64, n: usize, extra: &[String]) -> String {
@@ -58,7 +66,7 @@ pub fn run(seed: u64, n: usize, extra: &[String]) -> String {
     let mut seen_diff: BTreeSet<String> = BTreeSet::new();
     let mut counters: BTreeMap<&str, u64> = BTreeMap::new();
     for _ in 0..n {
-        let v = gen_vec(&mut rng);
+        let (v, wf, has_meta) = gen_vec(&mut rng);
         let v2 = v.clone();
         let parsed = match guarded(move || parse_git_cli_args(&v2)) {
             Err(p) => { viol.push(json!({"kind": "C18/panic-parse", "panic": p, "argv": v})); continue; }
@@ -72,10 +80,10 @@ pub fn run(seed: u64, n: usize, extra: &[String]) -> String {
             *counters.entry("reemitted_differently").or_insert(0) += 1;
             let key = format!("{:?}", v);
             if seen_diff.insert(key) && differing.len() < emit {
-                differing.push(json!({"argv": v, "reemitted": inv, "command": parsed.command}));
+                differing.push(json!({"argv": v, "reemitted": inv, "command": parsed.command, "wf": wf, "meta": has_meta}));
             }
         } else if classified.len() < emit && rng.chance(1, 8) {
-            classified.push(json!({"argv": v, "command": parsed.command, "is_help": parsed.is_help}));
+            classified.push(json!({"argv": v, "command": parsed.command, "is_help": parsed.is_help, "wf": wf, "meta": has_meta}));
         }
         if let Some(r) = repo.as_ref() {
             if let Some(cmd) = parsed.command.as_deref() {
@@ -84,7 +92,7 @@ pub fn run(seed: u64, n: usize, extra: &[String]) -> String {
                     let r2 = r.clone();
                     match guarded(panic::AssertUnwindSafe(move || resolve_alias_impl(&p2, &r2))) {
                         Err(p) => viol.push(json!({"kind": "C18/panic-alias", "panic": p, "argv": v})),
-                        Ok(res) => aliases.push(json!({"argv": v, "resolved_command": res.as_ref().map(|x| x.command.clone()), "resolved_argv": res.as_ref().map(|x| x.to_invocation_vec())})),
+                        Ok(res) => aliases.push(json!({"argv": v, "wf": wf, "meta": has_meta, "resolved_command": res.as_ref().map(|x| x.command.clone()), "resolved_argv": res.as_ref().map(|x| x.to_invocation_vec())})),
                     }
                 }
             }
